@@ -2214,7 +2214,7 @@ ure_exec(ure_dfa_t dfa, int flags, ucs2_t *text, unsigned long textlen,
 {
   int i, j, matched, found, skip;
   unsigned int bol_count;
-  unsigned long ms, me, acc_me;
+  unsigned long ms, me, acc_me, rs;
   ucs4_t c;
   ucs2_t *sp, *ep, *lp;
   _ure_dstate_t *stp;
@@ -2236,6 +2236,7 @@ ure_exec(ure_dfa_t dfa, int flags, ucs2_t *text, unsigned long textlen,
   ep = sp + textlen;
 
   ms = me = acc_me = ~0;
+  rs = 0;
   bol_count = 0;
 
   stp = dfa->states;
@@ -2334,8 +2335,18 @@ ure_exec(ure_dfa_t dfa, int flags, ucs2_t *text, unsigned long textlen,
 
       if (matched) {
 	me = sp - text;
-	if (ms == (unsigned long) ~0)
+	if (ms == (unsigned long) ~0) {
 	  ms = lp - text;
+	  /*
+	   * zvbi: where to try again when this attempt fails: one
+	   * character after its start. An attempt which began with a
+	   * BOL anchor matching a separator starts (ms) behind the
+	   * separator, the character at ms itself was not tried yet
+	   * ("^b|ab" must find "ab" at the beginning of a line,
+	   * "^a" a line following an empty line).
+	   */
+	  rs = (sym->type == _URE_BOL_ANCHOR && ms > 0) ? ms : ms + 1;
+	}
 
 	stp = dfa->states + stp->trans[i].next_state;
 
@@ -2386,7 +2397,7 @@ ure_exec(ure_dfa_t dfa, int flags, ucs2_t *text, unsigned long textlen,
 	 * failed attempt ("ab" must be found in "aab").
 	 */
 	if (ms != (unsigned long) ~0)
-	  sp = text + ms + 1;
+	  sp = text + rs;
 	stp = dfa->states;
 	ms = me = ~0;
       }
@@ -2416,12 +2427,12 @@ ure_exec(ure_dfa_t dfa, int flags, ucs2_t *text, unsigned long textlen,
 	  if (acc_me != (unsigned long) ~0) {
 	    me = acc_me;
 	    found = 1;
-	  } else if (ms != (unsigned long) ~0 && text + ms + 1 < ep) {
+	  } else if (ms != (unsigned long) ~0 && text + rs < ep) {
 	    /*
 	     * Text exhausted in the middle of an attempt: retry
 	     * one character after its start.
 	     */
-	    sp = text + ms + 1;
+	    sp = text + rs;
 	    stp = dfa->states;
 	    ms = me = ~0;
 	  }
